@@ -760,7 +760,7 @@ loop:
 				// HEADERS frame and streams that are reserved using PUSH_PROMISE.
 				if fr.Type() == FrameHeaders {
 					openStreams++
-					sc.lastID = fr.Stream()
+					atomic.StoreUint32(&sc.lastID, fr.Stream())
 				}
 
 				sc.createStream(sc.c, fr.Type(), strm)
@@ -945,7 +945,12 @@ func (sc *serverConn) writeGoAway(strm uint32, code ErrorCode, message string) {
 
 	fr := AcquireFrameHeader()
 
-	ga.SetStream(strm)
+	// The last stream id tells the peer which requests may have been acted
+	// upon, so that it can safely send the others again (RFC 7540 6.8). That
+	// is the highest stream opened so far, whatever stream the error is about
+	// and also when it is about none; strm only says whether there is
+	// anything left to finish.
+	ga.SetStream(atomic.LoadUint32(&sc.lastID))
 	ga.SetCode(code)
 	ga.SetData([]byte(message))
 
